@@ -313,9 +313,12 @@ def run_bus(case):
                 rejections += 1
                 continue
             if res is not None:
-                return bad(res[0], res[1] + " | history=%r" % (good,),
-                           key="bus-linker-slave-overlap" if (case.get("allow_linker_slave") and res[0] == "decoder-double") else "bus-" + res[0],
-                           cls=sorted(cls))
+                key = "bus-linker-slave-overlap" if (case.get("allow_linker_slave") and res[0] == "decoder-double") else "bus-" + res[0]
+                Bw = case["dw"] // 8
+                if res[0] in ("decoder-double", "decoder-window") and any(bus.regions[n_].size_pow2 < Bw for n_ in bus.slaves):
+                    # known finding: a region smaller than one bus word is accepted and decodes the whole word
+                    key = "bus-subword-region"
+                return bad(res[0], res[1] + " | history=%r" % (good,), key=key, cls=sorted(cls))
             finalized += 1
             continue
         # alloc_region() scans in steps of the requested size: bound the scan (DESIGN C13) - an op that
